@@ -139,8 +139,116 @@ theorem C16_string_roundtrip (st : Store) (k v : Str) (hn : NoDupKeys st)
     keys of 67 or more characters are rejected. -/
 theorem C16_accepted_fits_card (key val : Str) (h : validate key val = none) :
     reserved key = false ∧
-    (key.length ≤ 8 → val.length + countQuotes val ≤ 68 ∧ key.all (fun c => c.isUpper || c.isDigit) = true) ∧
+    (key.length ≤ 8 → val.length + countQuotes val ≤ 68 ∧ key.any badShortChar = false) ∧
     (9 ≤ key.length → key.length + val.length + countQuotes val ≤ 67 ∧ '=' ∉ key) := by
-  sorry
+  unfold validate at h
+  simp only [C16.shortKeylenMax, C16.longKeyGuard, C16.shortMaxData, longMaxData, C16.cardLen, C16.hierOverhead, sizeMod] at h
+  by_cases hr : reserved key = true
+  · simp [hr] at h
+  · have hr' : reserved key = false := by simpa using hr
+    simp only [hr', Bool.false_eq_true, if_false] at h
+    refine ⟨hr', ?_, ?_⟩
+    · intro hlen
+      have : key.length + 1 ≤ 9 := by omega
+      simp only [this, if_true] at h
+      by_cases hb : key.any badShortChar = true
+      · simp [hb] at h
+      · simp only [hb, Bool.false_eq_true, if_false] at h
+        refine ⟨?_, by simpa using hb⟩
+        by_cases hv : val.length + countQuotes val > 68
+        · simp [hv] at h
+        · omega
+    · intro hlen
+      have : ¬ key.length + 1 ≤ 9 := by omega
+      simp only [this, if_false] at h
+      cases hs : longKeyScan key with
+      | some e => simp [hs] at h
+      | none =>
+        simp only [hs] at h
+        refine ⟨?_, longKeyScan_none key hs⟩
+        by_cases hg : 80 ≤ 13 + key.length
+        · have hg' : 13 + (key.length + 1) - 1 ≥ 80 := by omega
+          rw [if_pos hg'] at h; simp at h
+        · have hg' : ¬ 13 + (key.length + 1) - 1 ≥ 80 := by omega
+          simp only [hg', if_false] at h
+          have e : (80 + 2 ^ 64 - (13 + (key.length + 1) - 1) % 2 ^ 64) % 2 ^ 64 = 67 - key.length := by omega
+          rw [e] at h
+          by_cases hv : val.length + countQuotes val > 67 - key.length
+          · simp [hv] at h
+          · omega
+
+example : validate "LONG KEY'S NAME".toList "it's".toList = none ∧ validate "A".toList (List.replicate 34 '\'') = none := by decide
+
+/-- **maxdatalen_wrap (witness).**  The expression `80-(13+keylen-1)` of the source, evaluated in `size_t`
+    arithmetic as the unrepaired code did for every long key: for a key of 67 characters it is 0, for 68
+    characters it wraps to 2^64-1 (no value was ever too long).  The repaired `write_key` never gets there
+    (`C16_accepted_fits_card`), a key of 67 or more characters is rejected. -/
+theorem C16_maxdatalen_wrap_witness :
+    longMaxData 68 = 0 ∧ longMaxData 69 = 2 ^ 64 - 1 ∧
+    validate (List.replicate 67 'K') [] = some .keyTooLong ∧ validate (List.replicate 66 'K') ['x'] = none := by decide
+
+/-- **The reserved table is a prefix filter**: every `strncmp(lit, key, n)` of `reservedFitsKeyword` (as generated
+    from the source) compares exactly the `strlen(lit)` characters of its literal. -/
+theorem C16_reserved_table_is_prefix_filter :
+    C16.reservedPrefixes.all (fun p => p.2 == p.1.length && !p.1.contains '\x00') = true ∧
+    C16.reservedPrefixes.map (·.1) = ["BITPIX".toList, "SIMPLE".toList, "TYPE".toList, "ORDER".toList, "NAXIS".toList,
+      "PERIOD".toList, "EXTEND".toList, "COMMENT".toList] := by decide
+
+example : reserved "ORDER12".toList = true ∧ reserved "ORDE".toList = false ∧ reserved "COMMENTARY X".toList = true := by decide
+
+/- Full statement wanted (accepted_survive_fits): for every store `st` all of whose entries were accepted by
+   `write_key` (keys non-empty, without leading/trailing blank, not starting with `HIERARCH `, not one of
+   END/HISTORY/CONTINUE, printable values) `fitsTrip st = some (st.map fun (k, v) => (k, v ++ blanks _))`.
+   Proved below: the value part, for the card layout of a standard (short) key — `ffs2c` (quote doubling, pad to
+   8, closing quote), then `ffpsvc` on columns 11.. of the card and the repaired quote stripping of
+   `read_fits_core` give back the value plus padding blanks, for every value the repaired `write_key` accepts
+   (length + quotes <= 68).  Missing: the key part of `mkCard`/`ffgknm` (blank padding of the name, the HIERARCH
+   layout, the forced closing quote for keys of 60..66 characters) and the lifting to whole stores; those are
+   covered by the differential run only (every `F` op and the single-entry card checks). -/
+theorem C16_accepted_survive_fits_partial (k8 v : Str) (hk : k8.length = 8) (hv : v.length + countQuotes v ≤ 68)
+    (h1 : hierPrefix.isPrefixOf (k8 ++ ['=', ' '] ++ ffs2c v) = false)
+    (h2 : commentaryHeads.any (·.isPrefixOf (k8 ++ ['=', ' '] ++ ffs2c v)) = false) :
+    stripValue (ffpsvc (k8 ++ ['=', ' '] ++ ffs2c v)) = v ++ blanks (8 - (v.length + countQuotes v)) := by
+  have hl := length_dbl v
+  obtain ⟨p, hp⟩ : ∃ p, p = 8 - (dbl v).length := ⟨_, rfl⟩
+  have hq : ffs2c v = '\'' :: (dbl (v ++ blanks p) ++ ['\'']) := by
+    rw [ffs2c_eq v hv, dbl_append, dbl_blanks, ← hp]; rfl
+  have hlen : (dbl (v ++ blanks p)).length ≤ 68 := by
+    rw [dbl_append, dbl_blanks, List.length_append]; simp only [blanks, List.length_replicate]; omega
+  have hvl : (v ++ blanks p).length ≤ (dbl (v ++ blanks p)).length := by rw [length_dbl (v ++ blanks p)]; omega
+  unfold ffpsvc
+  simp only [h1, Bool.false_eq_true, if_false, h2, Bool.or_false]
+  have hc : ¬ (k8 ++ ['=', ' '] ++ ffs2c v).length < 9 := by simp only [List.length_append, List.length_cons, List.length_nil, hk]; omega
+  have hd8 : ((k8 ++ ['=', ' '] ++ ffs2c v).drop 8).take 2 = ['=', ' '] := by
+    rw [List.append_assoc, List.drop_left' hk]; rfl
+  have hd10 : (k8 ++ ['=', ' '] ++ ffs2c v).drop 10 = ffs2c v := by
+    rw [List.drop_left' (by simp [hk])]
+  simp only [decide_eq_true_eq, hc, if_false, hd8, beq_self_eq_true, if_true, hd10]
+  rw [hq]
+  have hdw : List.dropWhile (fun x => x == ' ') ('\'' :: (dbl (v ++ blanks p) ++ ['\''])) = '\'' :: (dbl (v ++ blanks p) ++ ['\'']) := by
+    rw [List.dropWhile_cons_of_neg]; decide
+  simp only [lstrip, hdw]
+  have hfuel : (dbl (v ++ blanks p) ++ ['\'']).length + 1 = ((dbl (v ++ blanks p)).length + 2 - (v ++ blanks p).length) + (v ++ blanks p).length := by
+    rw [List.length_append]; simp only [List.length_singleton]; omega
+  rw [hfuel, psvcQ_dbl _ _ _ _ (by omega) rfl]
+  obtain ⟨f, hf⟩ : ∃ f, (dbl (v ++ blanks p)).length + 2 - (v ++ blanks p).length = f + 1 := ⟨(dbl (v ++ blanks p)).length + 1 - (v ++ blanks p).length, by omega⟩
+  rw [hf, psvcQ_close f (1 + (dbl (v ++ blanks p)).length) (by omega)]
+  unfold stripValue
+  simp only [List.length_cons, List.length_append, List.length_singleton]
+  have hlast : ('\'' :: (dbl (v ++ blanks p) ++ ['\''])).getLast? = some '\'' := by
+    rw [← List.cons_append, List.getLast?_append]; simp
+  simp only [hlast, show (dbl (v ++ blanks p)).length + 1 + 1 ≥ 2 by omega, decide_true, Bool.and_self, beq_self_eq_true, if_true, List.dropLast_concat]
+  have hfin : undouble (dbl v ++ blanks p) = v ++ blanks (8 - (v.length + countQuotes v)) := by
+    rw [undouble_dbl_blanks, hp, hl]
+  rw [dbl_append, dbl_blanks]
+  first
+    | exact hfin
+    | (rw [if_pos (by simp)]; exact hfin)
+
+/-- the hypotheses are satisfiable, and the general `fitsTrip` agrees on a concrete store with a quote -/
+example : hierPrefix.isPrefixOf ("GEOTYPE ".toList ++ ['=', ' '] ++ ffs2c "it's".toList) = false ∧
+    commentaryHeads.any (·.isPrefixOf ("GEOTYPE ".toList ++ ['=', ' '] ++ ffs2c "it's".toList)) = false ∧
+    fitsTrip [("GEOTYPE".toList, "it's".toList), ("MY LONG KEY".toList, "'q'".toList)] =
+      some [("GEOTYPE".toList, "it's   ".toList), ("MY LONG KEY".toList, "'q'   ".toList)] := by decide
 
 end PsV
